@@ -823,6 +823,53 @@ def rule_drv_fresh(ctx):
     return r
 
 
+def rule_setitem_copy(ctx):
+    r = RuleResult('R-setitem-copy', 'the buffer contents saved for the roll-back of an in-place write are a private copy: '
+                                     'the value stored in node.setitem never shares storage with the buffer or any argument')
+    m = ctx.model
+    eff = ctx.effects
+    n = 0
+    for fi in m.all_functions():
+        if fi.module != TRACER:
+            continue
+        sm = eff.sums[fi]
+        # (a) assignments `X.setitem = v` and `setitem = (sl, saved)`
+        for st in walk_no_nested(fi.node):
+            if not isinstance(st, ast.Assign):
+                continue
+            is_attr = any(isinstance(t, ast.Attribute) and t.attr == 'setitem' for t in st.targets)
+            is_name = any(isinstance(t, ast.Name) and t.id == 'setitem' for t in st.targets)
+            if not (is_attr or is_name) or isinstance(st.value, ast.Call) and norm(st.value).startswith('NotSet'):
+                continue
+            av = sm.assign_avs.get(id(st))
+            if av is None:
+                continue
+            n += 1
+            saved = av[1] if (isinstance(av, tuple) and len(av) == 2) else av
+            bad = [x for x in flat(saved) if x[0] == 'p' and x[1] != 'setitem']
+            if bad:
+                r.bad(Finding('R-setitem-copy', _f(fi), norm(st), 'the saved buffer contents in `%s` may share storage with %s: the '
+                              'roll-back of the reverse sweep then restores nothing' % (norm(st), sorted(x[1] for x in bad)), fi.file, st.lineno))
+            else:
+                r.ok(construct=_f(fi) + ':' + norm(st), nontrivial=True,
+                     sample='%s: `%s` stores roots %s (fresh / the setitem argument only)' % (fi.qualname, norm(st), sorted(flat(saved))))
+        # (b) call sites passing setitem=(sl, store)
+        for cid, (c, args, kws) in sm.callargs.items():
+            if 'setitem' in kws and isinstance(c.func, ast.Attribute) and c.func.attr == 'pushforward':
+                av = kws['setitem']
+                n += 1
+                saved = av[1] if (isinstance(av, tuple) and len(av) == 2) else av
+                bad = [x for x in flat(saved) if x[0] == 'p']
+                if bad:
+                    r.bad(Finding('R-setitem-copy', _f(fi), norm(c), 'the overwritten contents recorded by `%s` may alias %s (not a copy)'
+                                  % (norm(c)[:80], sorted(x[1] for x in bad)), fi.file, c.lineno))
+                else:
+                    r.ok(construct=_f(fi) + ':' + norm(c), nontrivial=True,
+                         sample='%s: recorded store %s is fresh' % (fi.qualname, sorted(flat(saved))))
+    r.floor = 3
+    return r
+
+
 def rule_seed_copy(ctx):
     r = RuleResult('R-seed-copy', 'user seeds (xbar_list) are only read, and only as the right-hand side of a '
                                   'subscript store into the node adjoint (copied, never aliased or modified)')
